@@ -58,6 +58,19 @@ func c03Bodies(c *Ctx) []c03Body {
 	add(GenLeaf(r, "B", 255), 0)
 	add(GenLeaf(r, "A", 256), 0)
 	add(GenLeaf(r, "U2", 700), 0)
+	// payload lengths around the 1/2/3-byte length-field boundaries for every leaf family whose payload is not
+	// simply its element count (localized strings carry a 2-byte header inside the payload): Body.Len(), the
+	// frame length field and the bytes written must agree exactly there (after seeded change C03b-1)
+	for _, k := range []string{"A", "J", "W", "B", "U1", "O"} {
+		for _, n := range []int{252, 253, 254, 255, 256, 257} {
+			add(GenLeaf(r, k, n), r.IntN(6))
+		}
+	}
+	for _, n := range []int{65532, 65533, 65534, 65535, 65536} {
+		add(GenLeaf(r, "W", n), 0)
+		add(GenLeaf(r, "A", n), 0)
+	}
+	add(&LItem{Kind: "L", Kids: []*LItem{GenLeaf(r, "W", 254), GenLeaf(r, "W", 255), GenLeaf(r, "I2", 127), GenLeaf(r, "I2", 128)}}, 0)
 	for i := 0; i < c.Pick(60, 600); i++ {
 		budget := 1 + r.IntN(40)
 		add(GenTree(r, r.IntN(6), &budget), r.IntN(6))
@@ -763,8 +776,19 @@ func c03Restamp(c *Ctx) {
 		if !bytes.Equal(k.base.ToBytes(), before) {
 			c.Violate("property", "restamp-mutated-original", "re-stamping changed the original message", replay)
 		}
+		// every member of the re-stamp family is framed by the send path, oldest first: what one member put on
+		// the wire must not leak into what another does (shared lazy state; after seeded change C03b-2)
+		for hi, h := range append([]hsms.Message{k.base}, holders...) {
+			if !bytes.Equal(hsms.VerifFrameBytes(h), h.ToBytes()) {
+				c.Violate("property", "wire-differs-from-tobytes", fmt.Sprintf("buildFrameBuffers of member %d of a re-stamp family differs from its ToBytes (after the earlier members were framed)", hi), replay)
+				break
+			}
+		}
 		if !bytes.Equal(hsms.VerifFrameBytes(cur), after) {
 			c.Violate("property", "wire-differs-from-tobytes", "buildFrameBuffers of a re-stamped message differs from ToBytes", replay)
+		}
+		if !bytes.Equal(hsms.VerifFrameBytes(k.base), before) {
+			c.Violate("property", "wire-differs-from-tobytes", "buildFrameBuffers of the original differs from ToBytes after its re-stamped copies were framed", replay)
 		}
 		if bd, ok := k.base.(*hsms.DataMessage); ok {
 			it0, e0 := bd.Item()
@@ -995,7 +1019,7 @@ func c03WireRole(c *Ctx, passive bool) {
 		body := pick()
 		st, f, sys := uint8(c03Streams[r.IntN(6)]), uint8(r.IntN(256)), c03Sys[r.IntN(len(c03Sys))]
 		sid := c03Sids[r.IntN(len(c03Sids))]
-		mode := []string{"forward", "forward-async", "send-async", "send-sync", "reply"}[i%5]
+		mode := []string{"forward", "forward-async", "send-async", "send-sync", "reply", "forward-family"}[i%6]
 		w := r.IntN(2) == 0 && f%2 == 1
 		replay := map[string]any{"mode": mode, "role": role, "stream": st, "function": f, "w": w, "session_id": sid, "system_bytes": sysHex(sys), "body": clip(body.arg, 1000)}
 		c.Count(fmt.Sprintf("wire|%s|%s|%d|%d|%v|%d|%s|%s", role, mode, st, f, w, sid, sysHex(sys), body.arg), true)
@@ -1025,6 +1049,42 @@ func c03WireRole(c *Ctx, passive bool) {
 					got, rerr = readFrame()
 				}
 			}
+		case "forward-family":
+			// the original is sent first, then a re-stamped copy of it (they share lazy state): the socket must
+			// carry the copy's own header (after seeded change C03b-2)
+			msg, err := hsms.NewDataMessage(st, f, w, sid, sys, body.real)
+			if err != nil {
+				cancel()
+				continue
+			}
+			sys2 := c03Sys[r.IntN(len(c03Sys))]
+			sid2 := c03Sids[r.IntN(len(c03Sids))]
+			var cp hsms.Message = msg.WithSystemBytes(sys2)
+			if r.IntN(2) == 0 {
+				cp = cp.(*hsms.DataMessage).WithSessionID(sid2)
+			} else {
+				sid2 = sid
+			}
+			done := make(chan error, 1)
+			go func() { done <- conn.ForwardDataMessage(ctx, msg) }()
+			first, e1 := readFrame()
+			if e := <-done; e != nil && e1 == nil {
+				e1 = e
+			}
+			if e1 != nil {
+				rerr = e1
+				break
+			}
+			if !bytes.Equal(first, msg.ToBytes()) {
+				c.Violate("property", "wire-differs-from-tobytes", "forward-family: the original went out differently from its ToBytes", replay)
+			}
+			go func() { done <- conn.ForwardDataMessage(ctx, cp.(*hsms.DataMessage)) }()
+			got, rerr = readFrame()
+			if e := <-done; e != nil && rerr == nil {
+				rerr = e
+			}
+			want = cp.ToBytes()
+			sid, sys = sid2, sys2
 		case "send-async":
 			if e := conn.SendDataMessageAsync(ctx, st, f, w, body.real); e != nil {
 				rerr = e
